@@ -384,7 +384,8 @@ class HttpParser:
         return len(rest)
 
     def _parse_body(self):
-        if self._status_code == 204 and len(self._buf) == 0:
+        if self._status_code in (204, 304):
+            # these responses never have a body: they end with their headers
             self.__on_message_complete = True
             return None
         if not self._chunked:
